@@ -38,6 +38,31 @@ def handleC04 (op : String) (input impl : Json) : Except String Json := do
       else if resClass impl == "panic" then pure ["no-panic"]
       else pure ["unexpected-error"]
     return reply mj (sameRes impl mj) viol
+  | "diff-cli" =>
+    -- `wrgl diff main main^ --no-gui`: the keys written as added / removed / modified are exactly the
+    -- set difference on keys and the keys whose rows differ (first column = key)
+    if resClass impl == "panic" then return reply Json.null false ["no-panic"]
+    if resClass impl != "ok" then return reply Json.null false ["unexpected-error"]
+    let newRows ← asRows (fldD input "new" (Json.arr #[]))
+    let oldRows ← asRows (fldD input "old" (Json.arr #[]))
+    let keyOf1 := fun (r : Row) => (r.head?).getD []
+    let sortB := fun (l : List Bytes) => l.mergeSort (fun a b => bytesCmp a b != .gt)
+    let expAdded := sortB ((newRows.filter (fun r => !oldRows.any (fun o => keyOf1 o == keyOf1 r))).map keyOf1)
+    let expRemoved := sortB ((oldRows.filter (fun o => !newRows.any (fun r => keyOf1 o == keyOf1 r))).map keyOf1)
+    let expModified := sortB ((newRows.filter (fun r => oldRows.any (fun o => keyOf1 o == keyOf1 r && o != r))).map keyOf1)
+    let v := fldD impl "val" Json.null
+    let get := fun (k : String) => do
+      let l ← (← asArr (fldD v k (Json.arr #[]))).mapM asBytes
+      pure (sortB l)
+    let iA ← get "added"
+    let iR ← get "removed"
+    let iM ← get "modified"
+    let viol :=
+      (if iA == expAdded then [] else ["added-rows-reported-exactly"]) ++
+      (if iR == expRemoved then [] else ["removed-rows-reported-exactly"]) ++
+      (if iM == expModified then [] else ["modified-rows-reported-exactly"])
+    let mj := Json.mkObj [("added", jNat expAdded.length), ("removed", jNat expRemoved.length), ("modified", jNat expModified.length)]
+    return reply mj viol.isEmpty viol
   | _ => throw s!"unknown op {op}"
 
 end Wrgl.Drv
